@@ -234,6 +234,7 @@ func scanSync(b []byte) (pods, ctrs []int, more bool, err error) {
 
 type recorder struct {
 	sync.Mutex
+	onChange func() // called (unlocked) after the record changed; pre-installed plugins flush to a file
 	nObjs    int
 	attempts []Attempt
 	plan     []ChunkObs
@@ -306,6 +307,9 @@ func (r *recorder) serverIcpt(ctx context.Context, unmarshal ttrpc.Unmarshaler, 
 		for _, c := range q.Containers {
 			ctrs = append(ctrs, idxOf(c.GetId(), 'c'))
 		}
+		if r.onChange != nil {
+			defer r.onChange()
+		}
 		r.Lock()
 		defer r.Unlock()
 		if len(r.plan) > r.nObjs+8 {
@@ -323,6 +327,7 @@ func (r *recorder) serverIcpt(ctx context.Context, unmarshal ttrpc.Unmarshaler, 
 
 type plugin struct {
 	sync.Mutex
+	onChange func()
 	mode     string
 	updates  int
 	pods     []*api.PodSandbox
@@ -336,6 +341,9 @@ func (p *plugin) RunPodSandbox(context.Context, *api.PodSandbox) error {
 	p.Lock()
 	p.gotRun = true
 	p.Unlock()
+	if p.onChange != nil {
+		p.onChange()
+	}
 	return nil
 }
 
@@ -355,6 +363,9 @@ func (p *plugin) synchronize(_ context.Context, pods []*api.PodSandbox, ctrs []*
 		if i < 0 || i >= len(p.ctrs) || !proto.Equal(x, p.ctrs[i]) {
 			bad++
 		}
+	}
+	if p.onChange != nil {
+		defer p.onChange()
 	}
 	p.Lock()
 	defer p.Unlock()
@@ -418,8 +429,11 @@ type syncResult struct {
 }
 
 func runCase(in *In, dir string) *Obs {
-	obs := &Obs{Outcome: "harness", Attempts: []Attempt{}, Plan: []ChunkObs{}, Calls: []CallObs{},
-		Returned: []int{}, RtUpdates: []int{}, Alive: true}
+	if in.Kind == "pre" {
+		return runCasePre(in, dir)
+	}
+	obs := emptyObs()
+	obs.Outcome, obs.Alive = "harness", true
 	pods, ctrs := buildState(in)
 	var ps, cs []int
 	for _, p := range pods {
